@@ -235,6 +235,7 @@ def run(tier, seed):
     ck.cov["traces_validated_against_impl"] = sum(len(j["behaviours"]) for j in jobs)
     ck.notes["orbit_history_steps"] = nsteps
     orbit_triples(ck, rng, tier, seed)
+    orbit_registry_extension(ck, tier, seed)
     for d in detail[:3] + detail[-2:]:
         ck.sample(d)
     ck.cov["rule"] = ("cases: (helper, implementation, mass pair) monomial measurements; (inverse pair, implementation, masses) round-trip batches of "
@@ -281,6 +282,57 @@ def orbit_triples(ck, rng, tier, seed):
                              {"form": form, "behaviour": beh[:b["k"] + 1], "mismatch": b["mismatch"]})
     ck.notes["orbit_triple_steps"] = total
     ck.cov["traces_validated_against_impl"] += 3 * len(walks)
+
+
+def orbit_registry_extension(ck, tier, seed):
+    """specs/OrbitRegistry.tla (beyond the listed property): a host with several moons - registry order, signature resolution
+    (instance / name / lower / title / index / the host standing for its tide raiser), per-world storage, clear_state."""
+    from .. import tlaval
+    r = run_tlc("OrbitRegistry", "OrbitRegistry.cfg", coverage=True, timeout=600, workers=8)
+    ck.add_tlc(r, "OrbitRegistry (extension): three moons, two values (complete graph under VIEW)")
+    if not r.ok:
+        raise MachineryError("OrbitRegistry: %s violated" % r.violated)
+    zero = [a for a, (d, t) in r.coverage.items() if t == 0]
+    if zero:
+        raise MachineryError("vacuity: OrbitRegistry actions never taken: %s" % zero)
+    wd = scratch("orsim")
+    os.makedirs(os.path.join(wd, "sim"))
+    nb = 16 if tier == "quick" else 160
+    run_tlc("OrbitRegistry", "OrbitRegistry_sim.cfg", workdir=wd, workers=1, timeout=600, depth=16,
+            simulate="file=%s,num=%d" % (os.path.join(wd, "sim", "b"), nb), seed=seed + 3)
+    behs = []
+    for f in sorted(os.listdir(os.path.join(wd, "sim"))):
+        b = tlaval.parse_sim_file(os.path.join(wd, "sim", f))
+        if b:
+            behs.append([[list(st["last"]), {k: st[k] for k in ("order", "raiser", "ecc", "sma")}] for _a, _g, st in b])
+    if not behs:
+        raise MachineryError("no OrbitRegistry behaviours")
+    groups = [{"orbit": "base", "behaviours": behs}, {"orbit": "physics", "behaviours": behs}]
+
+    def drive(grps, sabotage=False):
+        out = scratch("orjob")
+        jf = os.path.join(out, "job.json")
+        json.dump({"groups": grps, "sabotage": sabotage}, open(jf, "w"))
+        p = core.run_py(["-m", "harness.orbit_registry_driver", jf], timeout=3000, env={"NUMBA_NUM_THREADS": "1", "OMP_NUM_THREADS": "1"})
+        if p.returncode != 0 or not os.path.exists(jf + ".out.json"):
+            raise MachineryError("orbit_registry_driver failed: %s" % (p.stderr or "")[-1200:])
+        return json.load(open(jf + ".out.json"))
+    res = drive(groups)
+    for g in groups:
+        for b in g["behaviours"]:
+            ck.cov["traces_validated_against_impl"] += 1
+            for lab, st in b:
+                ck.case(("orbit-registry", g["orbit"], json.dumps(lab), json.dumps(st, sort_keys=True)), lab[0] != "Init")
+    for v in res["results"]:
+        g = groups[v["group"]]
+        ck.violation({"clause": "orbit_registry_conformance", "action": v["label"][0], "what": v["problems"][0][0]},
+                     "orbit registry (%s orbit) after %s: %s (history: %s)" % (v["orbit"], v["label"], "; ".join("%s: %s" % (a, b[:200]) for a, b in v["problems"][:3]), v["prefix"]),
+                     {"kind": "orbit_registry", "orbit": v["orbit"], "behaviour": g["behaviours"][v["behaviour"]][:v["step"] + 1], "problems": v["problems"]})
+    neg = drive([dict(groups[0], behaviours=[next(b for b in behs if any(x[0][0] in ("SetE", "SetA") and x[1] != y[1] for x, y in zip(b[1:], b)))])], sabotage=True)
+    if not neg["results"]:
+        raise MachineryError("orbit registry binding self-test failed: a skipped setter went unnoticed")
+    ck.notes["orbit_registry_extension"] = {"behaviours": 2 * len(behs), "steps_replayed": res["steps"],
+                                            "negative_control": "a skipped setter is reported (%s)" % neg["results"][0]["problems"][0][0]}
 
 
 def replay(path):
